@@ -2270,9 +2270,13 @@ impl<'input, T: Input> Scanner<'input, T> {
                         self.skip_blank();
                     } else if (self.mark.col as isize) < indent && self.input.peek() == '\t' {
                         // Tabs in an indentation columns are allowed if and only if the line is
-                        // empty. Skip to the end of the line.
-                        self.skip_ws_to_eol(SkipTabs::Yes)?;
-                        if !self.input.next_is_breakz() {
+                        // empty or holds only a comment. Skip the blanks; a comment is not part
+                        // of the scalar, it ends it.
+                        while self.input.next_is_blank() {
+                            self.skip_blank();
+                            self.input.lookahead(1);
+                        }
+                        if !(self.input.next_is_breakz() || self.input.peek() == '#') {
                             return Err(ScanError::new_str(
                                 start_mark,
                                 "while scanning a plain scalar, found a tab",
